@@ -130,6 +130,17 @@ def known_len(ctx, f, an, e, bb):
         st = c.self_ty["s"] if c.self_ty else ""
         if c.name in ("index", "index_mut"):
             return None
+    # a half of split_at(base, k) with constant k on a base of known length (k <= len: split_at itself is a census site)
+    if es.k == "field" and es.a[1] in ("0", "1"):
+        r = shapes.slice_range(es)
+        base = shapes.slice_base(es)
+        if r is not None and r != (0, None) and isinstance(r[0], int) and (r[1] is None or isinstance(r[1], int)):
+            base_len = known_len(ctx, f, an, base, bb)
+            if base_len is not None:
+                hi = base_len if r[1] is None else r[1]
+                if 0 <= r[0] <= hi <= base_len:
+                    return hi - r[0]
+        return None
     # by the type of the defining local: look at the expression's meta
     n = type_len(ctx, f, an, es)
     if n is not None:
@@ -181,6 +192,36 @@ def pinned_value(an, e, bb):
     if es.k == "call" and es.a[0].name == "len" and es.a[1]:
         return pinned_len(an, strip(es.a[1][0]), bb)
     return None
+
+
+def fold_accumulator(ctx, f, lengthy):
+    """closure f is only used as the step of `Iterator::fold` calls that run over
+    a record's `content` and start from a sum of in-memory lengths: its second
+    parameter is then the running total of such lengths (each pair is a distinct
+    in-memory object, so the total is below the size of the address space)"""
+    from kernel import closure_of
+    uses = []
+    for h in ctx.facts.fns:
+        if h.kind not in ("Fn", "AssocFn", "Closure"):
+            continue
+        han = None
+        for b2, t in h.calls():
+            if t.callee is None or not t.args:
+                continue
+            for ai, a in enumerate(t.args):
+                if a.kind not in ("copy", "move"):
+                    continue
+                han = han or ctx.an(h)
+                c = closure_of(han.operand_expr(a, b2.idx, len(b2.stmts)))
+                if c is None or c[0] != f.path:
+                    continue
+                ok = t.callee.name == "fold" and (t.callee.trait or "").endswith("Iterator") and len(t.args) == 3 and ai == 2
+                if ok:
+                    it = han.operand_expr(t.args[0], b2.idx, len(b2.stmts))
+                    init = han.operand_expr(t.args[1], b2.idx, len(b2.stmts))
+                    ok = any(x.k == "field" and x.a[1] == "content" for x in it.walk()) and lengthy(init)
+                uses.append(ok)
+    return bool(uses) and all(uses)
 
 
 def discharge(ctx, f, an, site):
@@ -237,7 +278,12 @@ def discharge(ctx, f, an, site):
                             return True  # a successfully decoded header's payload fits in the buffer it was read from
                         if e2.k == "call" and e2.a[0].name == "sum" and (e2.a[0].trait or "").endswith("Iterator") and "usize" in (e2.a[0].full or "") and any(x.k == "field" and x.a[1] == "content" for x in e2.walk()):
                             return True  # a sum of in-memory lengths over the pairs of a record
+                        if e2.k == "param" and e2.a[0] == 2 and f.kind == "Closure" and fold_accumulator(ctx, f, lengthy_in):
+                            return True  # the running total of a fold over the pairs of a record that adds in-memory lengths
                         return e2.k == "call" and e2.a[0].name in ("len", "length", "capacity", "size", "length_with_payload", "payload_length") and e2.a[0].krate in ("core", "alloc", "std", "bytes", "alloy_rlp", "enr")
+
+                    def lengthy_in(e3):
+                        return lengthy_e(e3)
                     if all(lengthy(o) for o in st.rv.ops):
                         return ("lib", "sum of in-memory buffer lengths / small constants cannot overflow usize")
         return None
